@@ -13,9 +13,19 @@ for f in test/test_*.py test/smoke_test.py; do
   esac
   k=0; while [ $k -lt $N ]; do JOBS="$JOBS $f:$k/$N"; k=$((k+1)); done
 done
+# watchdog: a pytest process that has written its junit file but does not exit (orphaned multiprocessing child in
+# test_memmap) is killed 60 s later
+( while sleep 30; do
+    for x in "$OUT"/*.xml; do
+      [ -f "$x" ] || continue
+      if [ $(( $(date +%s) - $(stat -c %Y "$x") )) -gt 60 ]; then pkill -f "junitxml=$x" 2>/dev/null; fi
+    done
+  done ) &
+WATCHDOG=$!
 cd "$REPO"; echo $JOBS | tr ' ' '\n' | env -u TENSORDICT_VERIF PYTHONPATH="$REPO:$HERE" xargs -P 16 -I{} sh -c \
   'j={}; f=${j%%:*}; sh_=${j##*:}; b=$(basename $f .py)-$(echo $sh_ | tr / _); VERIF_SHARD=$sh_ timeout 3000 /venv/bin/python -m pytest -q -p no:cacheprovider -p shard_plugin --timeout=900 --continue-on-collection-errors --junitxml='"$OUT"'/$b.xml $f > '"$OUT"'/$b.log 2>&1'
 # test_tensordict.py dominates: it is additionally split below if present (handled by pytest-level -k in callers if needed)
+kill $WATCHDOG 2>/dev/null
 /venv/bin/python - "$OUT" <<'PY'
 import sys, glob, json, xml.etree.ElementTree as ET
 out = sys.argv[1]
